@@ -104,7 +104,7 @@ func c17Path(r *rand.Rand, prefix string, t *c17Tree) string {
 }
 
 func runC17(e *Env) {
-	e.Rule = "a sandbox tree (root with css/js/txt files, nested directories, a hidden file, files whose names end in the letters of an allowed extension without the dot; next to the root: secrets with and without allowed extensions, sibling directories rootx and root.bak, a same-named a.css) - every outside file carries a canary token; routers with StaticDir, StaticFiles (css|js, css), StaticFS(http.Dir), StaticFile under prefixes /s and /assets/v1, with/without UseEncodedPath and StrictLastSlash; request paths from a grammar of hostile segments (.., ., empty, %2e%2e, ..%2f, %2F, back-slashes, %00, NUL, trailing dots/blanks, case variants, absolute paths, over-long ../ chains, names of outside files), sent both as raw URL.Path (no client-side cleaning) and as escaped request targets parsed like a server. Oracle: no response body contains a canary or the name of an outside file; a 200 body that is not a directory listing equals a file under the root byte for byte; StaticFiles answers 200 only when the matched path ends in '.'+allowed extension; StaticFile returns only the configured file; no panic. Non-trivial: a path containing a dot-dot/encoded/absolute component or an outside name; distinct by (configuration, path)."
+	e.Rule = "a sandbox tree (root with css/js/txt files, nested directories, a hidden file, files whose names end in the letters of an allowed extension without the dot; next to the root: secrets with and without allowed extensions, sibling directories rootx and root.bak, a same-named a.css) - every outside file carries a canary token; routers with StaticDir, StaticFiles (css|js, css), StaticFS(http.Dir), StaticFile under prefixes /s and /assets/v1 (also registered inside a group), the root spelled absolutely or relative to the working directory ('' and '.'), with/without UseEncodedPath and StrictLastSlash; request paths from a grammar of hostile segments (.., ., empty, %2e%2e, ..%2f, %2F, back-slashes, %00, NUL, trailing dots/blanks, case variants, absolute paths, over-long ../ chains, names of outside files), sent both as raw URL.Path (no client-side cleaning) and as escaped request targets parsed like a server. Oracle: no response body contains a canary or the name of an outside file; a 200 body that is not a directory listing equals a file under the root byte for byte; StaticFiles answers 200 only when the matched path ends in '.'+allowed extension; StaticFile returns only the configured file; no panic. Non-trivial: a path containing a dot-dot/encoded/absolute component or an outside name; distinct by (configuration, path)."
 	e.Assumptions = []string{
 		"symlinks inside the root pointing outside are not part of the statement's tree (http.Dir follows them by design)",
 		"directory listings (FileServer) are allowed as long as they list nothing outside the root",
@@ -115,6 +115,14 @@ func runC17(e *Env) {
 		return
 	}
 	defer os.RemoveAll(tree.Base)
+	// the process works inside the root, so that relative roots ("" and ".") mean the sandbox root
+	if wd, err := os.Getwd(); err == nil {
+		defer os.Chdir(wd)
+	}
+	if err := os.Chdir(tree.Root); err != nil {
+		e.Inconclusive("cannot chdir into the sandbox root: %v", err)
+		return
+	}
 	insideByContent := map[string]string{}
 	for f, c := range tree.Inside {
 		insideByContent[c] = f
@@ -134,26 +142,44 @@ func runC17(e *Env) {
 		}
 		router := rux.New(opts...)
 		staticFileTarget := "c.txt"
+		// the root spelled absolutely or relative to the working directory (= the sandbox root)
+		rootSpelling := pick(r, []string{tree.Root, tree.Root, "", ".", "./"})
+		inGroup := chance(r, 1, 5) && (kind == "StaticFiles" || kind == "StaticFile")
+		regPrefix := prefix
+		reg := func(f func()) { f() }
+		if inGroup {
+			// registered inside a group: the request prefix is group prefix + registered prefix
+			regPrefix = "/in"
+			prefix = "/grp/in"
+			reg = func(f func()) { router.Group("/grp", f) }
+		}
 		switch kind {
 		case "StaticDir":
-			router.StaticDir(prefix, tree.Root)
+			reg(func() { router.StaticDir(regPrefix, rootSpelling) })
 		case "StaticFiles":
-			router.StaticFiles(prefix, tree.Root, exts)
+			reg(func() { router.StaticFiles(regPrefix, rootSpelling, exts) })
 		case "StaticFS":
-			router.StaticFS(prefix, http.Dir(tree.Root))
+			reg(func() { router.StaticFS(regPrefix, http.Dir(rootSpelling)) })
 		default:
 			staticFileTarget = pick(r, []string{"c.txt", "a.css", "sub/b.js"})
-			router.StaticFile(prefix+"/file", filepath.Join(tree.Root, filepath.FromSlash(staticFileTarget)))
+			target := filepath.Join(tree.Root, filepath.FromSlash(staticFileTarget))
+			if rootSpelling != tree.Root {
+				target = filepath.FromSlash(staticFileTarget) // relative to the working directory
+			}
+			reg(func() { router.StaticFile(regPrefix+"/file", target) })
 		}
 		var cur string
 		t.Describe(func() any {
-			return map[string]any{"handler": kind, "prefix": prefix, "exts": exts, "UseEncodedPath": encoded, "StrictLastSlash": strict, "root": tree.Root, "request": cur}
+			return map[string]any{"handler": kind, "prefix": prefix, "exts": exts, "UseEncodedPath": encoded, "StrictLastSlash": strict, "root": tree.Root, "root_spelled_as": rootSpelling, "registered_in_group": inGroup, "request": cur}
 		})
 		t.AutoSample()
 		for i := 0; i < 12; i++ {
 			p := c17Path(r, prefix, tree)
 			if kind == "StaticFile" && chance(r, 1, 2) {
-				p = prefix + "/file" + pick(r, []string{"", "/", "/../../secret.txt", "?x=../secret.txt", "/%2e%2e/secret.txt"})
+				p = prefix + "/file" + pick(r, []string{"", "/", "//", "/../../secret.txt", "?x=../secret.txt", "/%2e%2e/secret.txt", " "})
+				if chance(r, 1, 6) {
+					p = "/" + p // repeated leading slash: normalised away by the router
+				}
 			}
 			var req *http.Request
 			mode := "raw-path"
@@ -205,6 +231,10 @@ func runC17(e *Env) {
 					}
 				}
 				isListing := strings.Contains(body, "<pre>")
+				if kind == "StaticFile" && req.Method != "HEAD" && body != tree.Inside[staticFileTarget] {
+					t.Fail("staticfile-serves-other-content", "%s: StaticFile is configured for %q only, but answered 200 with %q", cur, staticFileTarget, truncate(body, 120))
+					return
+				}
 				if req.Method == "HEAD" || isListing {
 					continue
 				}
